@@ -6,6 +6,7 @@
 //  * the pc advance of one really executed instruction (second word = a trap opcode, which would throw
 //    if it were executed as an instruction).
 // One ndjson line per word.  --mode lo..hi selects a word range (sharding).
+#include <cstring>
 #include <map>
 #include "vh.h"
 #include "recvisitor.h"
@@ -74,7 +75,50 @@ int main(int argc, char** argv) {
             o.num("iexp", exp);
         }
         o.num("dexp", Disassembler::NeedExpansion((u16)w) ? 1 : 0);
+        // the disassembler is a function of (word, second word, optional ar/arp view): asked without a view, then with
+        // one (the annotated form test_verifier uses), then without again; everything below is judged on the LAST answer
+        auto tfirst = Disassembler::GetTokenList((u16)w, 0);
+        Disassembler::ArArpSettings view;
+        {
+            u32 h = (u32)w * 2654435761u + 0x9E3779B9u * (a.seed + 1);
+            auto nx = [&h]() { h ^= h << 13; h ^= h >> 17; h ^= h << 5; return (u16)(h >> 8); };
+            unsigned kind = w % 11;
+            for (auto& x : view.ar) x = kind == 0 ? 0 : kind == 1 ? 0xFFFF : nx();
+            for (auto& x : view.arp) x = kind == 0 ? 0 : kind == 1 ? 0xFFFF : nx();
+        }
+        auto tview = Disassembler::GetTokenList((u16)w, 0, view);
         auto t0 = Disassembler::GetTokenList((u16)w, 0);
+        o.raw("tok0", jtokens(tfirst));
+        o.raw("tokv", jtokens(tview));
+        o.raw("view", "[" + std::to_string(view.ar[0]) + "," + std::to_string(view.ar[1]) + "," + std::to_string(view.arp[0]) + "," +
+                          std::to_string(view.arp[1]) + "," + std::to_string(view.arp[2]) + "," + std::to_string(view.arp[3]) + "]");
+        {   // each token of the plain form cut at the ar/arp slot names (glue: the specification joins the pieces again, with
+            // and without the view applied to the slot pieces, and compares with tok / tokv)
+            static const char* const slots[] = {"arrn", "+ars", "arprni", "+arpsi", "arprnj", "+arpsj"};
+            std::string at = "[";
+            for (size_t i = 0; i < t0.size(); ++i) {
+                const std::string& t = t0[i];
+                std::vector<std::string> pieces;
+                size_t pos = 0, start = 0;
+                while (pos < t.size()) {
+                    bool hit = false;
+                    for (const char* sl : slots) {
+                        size_t n = std::strlen(sl);
+                        if (t.compare(pos, n, sl) == 0 && pos + n < t.size() && t[pos + n] >= '0' && t[pos + n] <= '3') {
+                            if (pos > start) pieces.push_back(t.substr(start, pos - start));
+                            pieces.push_back(t.substr(pos, n + 1));
+                            pos += n + 1; start = pos; hit = true;
+                            break;
+                        }
+                    }
+                    if (!hit) ++pos;
+                }
+                if (start < t.size()) pieces.push_back(t.substr(start));
+                if (i) at += ',';
+                at += jtokens(pieces);
+            }
+            o.raw("atoms", at + "]");
+        }
         bool err = false;
         for (auto& t : t0) if (t.find("[ERROR]") != std::string::npos) err = true;
         o.raw("tok", jtokens(t0));
